@@ -270,7 +270,9 @@ def value_set(fn, nid, name_d, width=16):
             op = {"<": ">", "<=": ">=", ">": "<", ">=": "<=", "==": "==", "!=": "!="}[op]
         if c is None:
             raise Unrecognised("comparison without a constant: %s" % fn.text(nid))
-        # x op c
+        # x op c   (value casts of the unit to a wider unsigned type keep its value in this domain)
+        if an["k"] in ("CXXFunctionalCastExpr", "CXXStaticCastExpr", "CStyleCastExpr", "CXXUnresolvedConstructExpr") and len(an.get("ch", [])) == 1:
+            an = fn.nodes[fn.strip_casts(an["ch"][0])]
         if an["k"] == "DeclRefExpr" and an.get("d") == name_d:
             base = {"<": [(0, c - 1)] if c > 0 else [], "<=": [(0, c)], ">": [(c + 1, full[1])] if c < full[1] else [],
                     ">=": [(c, full[1])], "==": [(c, c)] if c <= full[1] else [], "!=": comp([(c, c)])}[op]
